@@ -12,6 +12,7 @@ import (
 	"os"
 	"strconv"
 	"sync"
+	"time"
 
 	"verifmc/checks/conc"
 	"verifmc/explore/sched"
@@ -33,8 +34,16 @@ func main() {
 	out := map[string]any{"property": os.Args[1], "iterations_per_scenario": iters}
 	fails := map[string]int{}
 	runs := 0
-	for _, sc := range append(f(), conc.StressScenarios(os.Args[1])...) {
-		for i := 0; i < iters; i++ {
+	small := len(f())
+	for si, sc := range append(f(), conc.StressScenarios(os.Args[1])...) {
+		n := iters
+		if si >= small {
+			// the stress scenarios loop hundreds of times internally
+			if n = iters / 15; n < 5 {
+				n = 5
+			}
+		}
+		for i := 0; i < n; i++ {
 			bodies, judge := sc.Make()
 			start := make(chan struct{})
 			var wg sync.WaitGroup
@@ -47,7 +56,19 @@ func main() {
 				}(b)
 			}
 			close(start)
-			wg.Wait()
+			// every iteration takes milliseconds; one that is still going after two minutes is blocked for good
+			fin := make(chan struct{})
+			go func() { wg.Wait(); close(fin) }()
+			select {
+			case <-fin:
+			case <-time.After(2 * time.Minute):
+				fails[sc.Name+": the scenario's goroutines did not finish within 2 minutes (iteration "+strconv.Itoa(i)+"): they block each other for ever"]++
+				out["executions"] = runs
+				out["judge_failures"] = fails
+				b, _ := json.Marshal(out)
+				fmt.Println(string(b))
+				os.Exit(1)
+			}
 			runs++
 			if _, fail := judge(); fail != "" {
 				fails[sc.Name+": "+fail]++
